@@ -2,7 +2,11 @@
 
 case = dict(
   api  = "event" (a bare _ThreePhaseEvent) | "reactor" (ReactorBase.addSystemEventTrigger /
-         removeSystemEventTrigger / fireSystemEvent on a private event type),
+         removeSystemEventTrigger / fireSystemEvent on a private event type)
+         | "startup" | "shutdown": the triggers are registered for the reactor's own 'startup' /
+         'shutdown' event and the event is fired by the reactor's life cycle: a real
+         ReactorBase.run() main loop (stub doIteration, no I/O) and reactor.stop(); the post
+         steps are then performed from inside the main loop while the event waits,
   ops  = registrations and removals before firing, interleaved:
            ["add", phase, beh, action]   phase before|during|after
                beh: "ret" (None) | "val" (a non-Deferred value)
@@ -15,10 +19,15 @@ case = dict(
                action, performed by the trigger when it runs, before it returns:
                     None | ["rm", t] (remove trigger t) | ["fire", t, ok] (fire the
                     Deferred an earlier before-trigger t returned)
+                    | ["iter"] (spin the reactor re-entrantly: reactor.iterate(); reactor apis)
+                    | ["cwr"] ("startup" only: reactor.callWhenRunning(f) - by its documentation
+                      a registration of f as an after-startup trigger unless the reactor is
+                      already running, in which case f is called at once)
            ["rm", t]                     remove trigger t (t taken mod number of adds so far)
   post = steps after fireEvent() while before-Deferreds are outstanding:
            ["fire", j, ok]  fire the j-th (mod n) still unfired before-Deferred
            ["rm", t]        remove trigger t from outside
+           ["cwr"]          ("startup" only) callWhenRunning from outside (a timed-call-like context)
 )
 Triggers are numbered in registration order and registered as (callable, id), so
 every handle is distinct.  After `post` the harness fires what is still unfired
@@ -35,8 +44,8 @@ META = dict(
     property="C12",
     level="exploration",
     technique="reference model of the three-phase event compared with the real execution log after every step: complete enumeration of small trigger sets with every firing order of the before-Deferreds, plus Hypothesis histories of up to 20 registrations",
-    level_text="All trigger sets of up to 3 (quick) / 4 (thorough) triggers over 8 kinds, each combined with every single removal (before firing, from inside any trigger, from outside while Deferreds are outstanding at every position) and every firing order of the outstanding before-Deferreds with every single failing one, are enumerated through both the bare _ThreePhaseEvent and the ReactorBase API; random histories of up to 20 registrations with interleaved removals, in-trigger removals/firings and random firing orders go beyond. Not a proof: exhaustive only for the small scope.",
-    level_note="Reference model written from IReactorCore.addSystemEventTrigger's documentation and the statement, trusted. Registering the same (callable, args) twice and registering new triggers while the event is firing are not generated (unspecified). Whether removing an already removed / already run trigger raises ValueError or only warns is not asserted. Triggers raising non-Exception BaseExceptions (SystemExit, KeyboardInterrupt, GeneratorExit, asyncio.CancelledError) are treated like any raising trigger because the handler swallows BaseException on purpose (twisted.logger test_logger uses KeyboardInterrupt).",
+    level_text="All trigger sets of up to 3 (quick) / 4 (thorough) triggers over 8 kinds, each combined with every single removal (before firing, from inside any trigger, from outside while Deferreds are outstanding at every position) and every firing order of the outstanding before-Deferreds with every single failing one, are enumerated through the bare _ThreePhaseEvent, the ReactorBase API on a private event, and the reactor's own 'startup' and 'shutdown' events fired by a real ReactorBase.run()/stop() life cycle (stub doIteration) with the post-fire steps performed from inside the main loop; in the reactor apis every trigger may also spin the reactor re-entrantly (reactor.iterate()), and for 'startup' triggers and outside code may call reactor.callWhenRunning (= registration of an after-startup trigger unless already running); random histories of up to 20 registrations with interleaved removals, in-trigger removals/firings and random firing orders go beyond. Not a proof: exhaustive only for the small scope.",
+    level_note="Reference model written from IReactorCore.addSystemEventTrigger's documentation and the statement, trusted. Registering the same (callable, args) twice and registering new triggers while the event is firing (other than through callWhenRunning, whose documented contract is used as the oracle) are not generated (unspecified). Whether removing an already removed / already run trigger raises ValueError or only warns is not asserted. Triggers raising non-Exception BaseExceptions (SystemExit, KeyboardInterrupt, GeneratorExit, asyncio.CancelledError) are treated like any raising trigger because the handler swallows BaseException on purpose (twisted.logger test_logger uses KeyboardInterrupt).",
     design_ref="§5 C12",
     rule="case = (api, registrations/removals, post-fire steps). non-trivial = at least two before-triggers return Deferreds that are fired in an order different from registration order and at least one removal takes effect; distinct by the whole case.",
 )
@@ -51,6 +60,10 @@ OTHER_BEHS = ("ret", "val", "dfr") + RAISES
 
 class HarnessFault(Exception):
     pass
+
+
+class _StopScript(Exception):
+    """Internal: a divergence was recorded while running inside the main loop."""
 
 
 # "An exception in one trigger does not prevent the others from running": the
@@ -86,7 +99,10 @@ HARNESS_EXCEPTIONS = tuple(RAISE_CLASS.values())
 # reference model
 
 class Model:
-    def __init__(self):
+    def __init__(self, api="event"):
+        self.api = api
+        self.running = False      # "startup" only: the reactor's own during-startup trigger ran
+        self.cwr_calls = 0
         self.trig = []            # dict(phase, beh, action)
         self.alive = set()        # registered, not removed, not yet run
         self.ran = []             # execution log
@@ -115,13 +131,29 @@ class Model:
         if a is not None:
             if a[0] == "rm":
                 self.remove(a[1] % len(self.trig))
-            else:
+            elif a[0] == "fire":
                 u = a[1] % len(self.trig)
                 if u in self.unfired:
                     self.unfired.remove(u)
                     self.fire_order.append(u)
+            elif a[0] == "cwr":
+                self.cwr()
+            # "iter": nothing is pending in the reactor, spinning it changes nothing
         if tr["phase"] == "before" and tr["beh"] == "dfr":
             self.unfired.append(t)
+
+    def cwr(self):
+        """reactor.callWhenRunning(f): called at once if running, else f becomes the
+        newest after-startup trigger."""
+        if self.api != "startup":
+            return
+        self.cwr_calls += 1
+        self.trig.append(dict(phase="after", beh="ret", action=None, cwr=True))
+        t = len(self.trig) - 1
+        if self.running:
+            self.ran.append(t)
+        else:
+            self.alive.add(t)
 
     def _phase(self, phase):
         for t in range(len(self.trig)):
@@ -138,6 +170,7 @@ class Model:
     def _maybe_continue(self):
         if self.state == "waiting" and not self.unfired:
             self.state = "done"
+            self.running = self.api == "startup"
             self._phase("during")
             self._phase("after")
 
@@ -161,8 +194,14 @@ def _owned_reactor_class():
             def installWaker(self):
                 pass
 
+            verif_hook = None
+
             def doIteration(self, delay):
-                pass
+                if self.verif_hook is not None:
+                    self.verif_hook()
+
+            def removeAll(self):
+                return []
         _REACTOR_CLASS.append(OwnedReactor)
     return _REACTOR_CLASS[0]
 
@@ -172,10 +211,12 @@ class World:
         from twisted.internet import base, defer
         self.defer = defer
         self.api = api
-        if api == "reactor":
-            self.reactor = _owned_reactor_class()()
-        else:
+        self.evname = api if api in ("startup", "shutdown") else "verif"
+        self.in_trigger = 0
+        if api == "event":
             self.event = base._ThreePhaseEvent()
+        else:
+            self.reactor = _owned_reactor_class()()
         self.trig = []
         self.handles = []
         self.deferreds = {}
@@ -186,29 +227,39 @@ class World:
     def add(self, phase, beh, action):
         t = len(self.trig)
         self.trig.append(dict(phase=phase, beh=beh, action=action))
-        if self.api == "reactor":
-            h = self.reactor.addSystemEventTrigger(phase, "verif", self.call, t)
-        else:
+        if self.api == "event":
             h = self.event.addTrigger(phase, self.call, t)
+        else:
+            h = self.reactor.addSystemEventTrigger(phase, self.evname, self.call, t)
         self.handles.append(h)
 
     def remove(self, t):
         """Returns False if the implementation refused with ValueError."""
+        if self.handles[t] is None:      # callWhenRunning called it at once: nothing registered
+            return False
         try:
-            if self.api == "reactor":
-                self.reactor.removeSystemEventTrigger(self.handles[t])
-            else:
+            if self.api == "event":
                 self.event.removeTrigger(self.handles[t])
+            else:
+                self.reactor.removeSystemEventTrigger(self.handles[t])
         except ValueError:
             self.remove_errors += 1
             return False
         return True
 
     def fire_event(self):
-        if self.api == "reactor":
-            self.reactor.fireSystemEvent("verif")
-        else:
+        if self.api == "event":
             self.event.fireEvent()
+        else:
+            self.reactor.fireSystemEvent(self.evname)
+
+    def cwr(self):
+        if self.api != "startup":
+            return
+        t = len(self.trig)
+        self.trig.append(dict(phase="after", beh="ret", action=None))
+        self.handles.append(None)
+        self.handles[t] = self.reactor.callWhenRunning(self.call, t)
 
     def fire_deferred(self, t, ok):
         d = self.deferreds[t]
@@ -218,17 +269,29 @@ class World:
             d.errback(HarnessFault(t))
 
     def call(self, t):
+        self.in_trigger += 1
+        try:
+            return self._call(t)
+        finally:
+            self.in_trigger -= 1
+
+    def _call(self, t):
         self.log.append(t)
         tr = self.trig[t]
         a = tr["action"]
         if a is not None:
             if a[0] == "rm":
                 self.remove(a[1] % len(self.trig))
-            else:
+            elif a[0] == "fire":
                 u = a[1] % len(self.trig)
                 d = self.deferreds.get(u)
                 if d is not None and not d.called:
                     self.fire_deferred(u, a[2])
+            elif a[0] == "iter":
+                if self.api != "event":
+                    self.reactor.iterate()
+            elif a[0] == "cwr":
+                self.cwr()
         beh = tr["beh"]
         if beh == "ret":
             return None
@@ -258,6 +321,8 @@ def _diagnose(w, m, unfired_before_step):
     k = next((i for i in range(n) if real[i] != want[i]), n)
     if k < len(real):
         t = real[k]
+        if m.trig[t].get("cwr"):
+            return "callWhenRunning-callable-ran-before-the-reactor-was-running"
         ph = m.trig[t]["phase"]
         if t not in want:
             if t not in m.alive:
@@ -283,31 +348,47 @@ def _diagnose(w, m, unfired_before_step):
 
 
 def run_case(ctx, case):
-    w = World(case["api"])
-    m = Model()
+    api = case["api"]
+    w = World(api)
+    m = Model(api)
+    verdicts = []          # (signature, detail) in the order noticed; raised by flush()
+    flags = set()
+
+    in_loop = [False]      # true while the script runs inside the reactor's main loop
+
+    def flush():
+        if verdicts:
+            ctx.violation(verdicts[0][0], case, verdicts[0][1])
+
+    def noticed(sig, detail):
+        """A divergence: report it now, or (inside the main loop, whose catch-all
+        would swallow the report) stop the script and the reactor first."""
+        verdicts.append((sig, detail))
+        if in_loop[0]:
+            raise _StopScript()
+        flush()
 
     def compare(where, unfired_before=()):
         if w.log != m.ran:
-            ctx.violation(_diagnose(w, m, unfired_before), case,
-                          f"{where}: ran {w.log}, expected {m.ran}; triggers {m.trig}")
+            noticed(_diagnose(w, m, unfired_before),
+                    f"{where}: ran {w.log}, expected {m.ran}; triggers {m.trig}")
 
-    def guarded_call(fn, *a):
+    def guarded_call(fn, *a, **kw):
         try:
-            return fn(*a)
+            return fn(*a, **kw)
         except HARNESS_EXCEPTIONS as e:
             kind = next(k for k, c in RAISE_CLASS.items() if type(e) is c)
             if w.log == m.ran:
                 # nothing was left to run: the statement only protects the *other* triggers
-                ctx.count("exception of the last trigger came out of the firing call (no other trigger affected)")
+                flags.add("exception of the last trigger came out of the firing call (no other trigger affected)")
                 return None
-            ctx.violation("trigger-exception-propagated" + kind[5:], case,
-                          f"{type(e).__name__} of trigger {e.args} came out of {fn.__name__}; "
-                          f"ran {w.log}; triggers {m.trig}")
+            noticed("trigger-exception-propagated" + kind[5:],
+                    f"{type(e).__name__} of trigger {e.args} came out of {getattr(fn, '__name__', fn)}; "
+                    f"ran {w.log}, expected {m.ran}; triggers {m.trig}")
 
     n_adds = sum(1 for op in case["ops"] if op[0] == "add")
     if n_adds == 0:
         return
-    flags = set()
     for op in case["ops"]:
         if op[0] == "add":
             _, phase, beh, action = op
@@ -332,47 +413,109 @@ def run_case(ctx, case):
             if tr["beh"] != "raise":
                 flags.add(f"trigger raises a non-Exception BaseException ({tr['beh'][6:]}, {tr['phase']})")
     rem0 = m.effective_removals
-    m.fire_event()
-    guarded_call(w.fire_event)
-    compare("after fireEvent")
-    if m.effective_removals > rem0:
-        flags.add("in-trigger removal took effect")
-    if m.state == "waiting":
-        flags.add("waits for before-Deferreds")
-    for step in case["post"]:
-        if step[0] == "fire":
-            if not m.unfired:
-                continue
-            cand = sorted(m.unfired)
-            t = cand[step[1] % len(cand)]
+
+    def script():
+        """Everything from firing the event to the closure.  In the life-cycle
+        apis this runs inside the reactor's main loop; a `yield` hands control
+        back to the loop for one turn."""
+        if api == "shutdown":
+            m.fire_event()
+            w.reactor.stop()
+            yield                       # the main loop notices the stop and fires 'shutdown'
+        elif api != "startup":          # ("startup": run() has fired it already)
+            m.fire_event()
+            guarded_call(w.fire_event)
+        compare("after fireEvent")
+        if m.effective_removals > rem0:
+            flags.add("in-trigger removal took effect")
+        if m.state == "waiting":
+            flags.add("waits for before-Deferreds")
+        if m.cwr_calls:
+            flags.add("callWhenRunning from inside a startup trigger")
+        for step in case["post"]:
+            if step[0] == "fire":
+                if not m.unfired:
+                    continue
+                cand = sorted(m.unfired)
+                t = cand[step[1] % len(cand)]
+                before = list(m.unfired)
+                m.fire_deferred(t)
+                guarded_call(w.fire_deferred, t, bool(step[2]))
+                if not step[2]:
+                    flags.add("before-Deferred fails")
+                compare(f"after firing the Deferred of trigger {t}", before)
+            elif step[0] == "cwr":
+                if api != "startup":
+                    continue
+                flags.add("callWhenRunning from outside while startup waits for before-Deferreds"
+                          if m.state == "waiting" else "callWhenRunning from outside once running")
+                m.cwr()
+                guarded_call(w.cwr)
+                compare("after callWhenRunning from outside")
+            else:
+                t = step[1] % len(m.trig)
+                waiting = m.state == "waiting"
+                eff = m.remove(t)
+                ok = w.remove(t)
+                if waiting:
+                    flags.add("removal while Deferreds outstanding" + (" (effective)" if eff else ""))
+                if eff and not ok:
+                    noticed("remove-refused", f"removing pending trigger {t} raised ValueError")
+                compare(f"after removing trigger {t}")
+        # closure: fire what is still outstanding, in registration order
+        while m.unfired:
+            t = sorted(m.unfired)[0]
             before = list(m.unfired)
             m.fire_deferred(t)
-            guarded_call(w.fire_deferred, t, bool(step[2]))
-            if not step[2]:
-                flags.add("before-Deferred fails")
-            compare(f"after firing the Deferred of trigger {t}", before)
-        else:
-            t = step[1] % len(m.trig)
-            waiting = m.state == "waiting"
-            eff = m.remove(t)
-            ok = w.remove(t)
-            if waiting:
-                flags.add("removal while Deferreds outstanding" + (" (effective)" if eff else ""))
-            if eff and not ok:
-                ctx.violation("remove-refused", case, f"removing pending trigger {t} raised ValueError")
-            compare(f"after removing trigger {t}")
-    # closure: fire what is still outstanding, in registration order
-    while m.unfired:
-        t = sorted(m.unfired)[0]
-        before = list(m.unfired)
-        m.fire_deferred(t)
-        guarded_call(w.fire_deferred, t, True)
-        compare(f"closure: after firing the Deferred of trigger {t}", before)
+            guarded_call(w.fire_deferred, t, True)
+            compare(f"closure: after firing the Deferred of trigger {t}", before)
+        if api == "startup":
+            w.reactor.stop()
+
+    gen = script()
+    if api in ("startup", "shutdown"):
+        stored = []
+        turns = [0]
+
+        def hook():
+            if w.in_trigger:
+                return                  # reactor.iterate() from inside a trigger
+            turns[0] += 1
+            if turns[0] > 60:
+                if not verdicts:
+                    verdicts.append(("reactor-did-not-finish-the-event",
+                                     f"main loop still running after 60 turns; ran {w.log}, expected {m.ran}"))
+                w.reactor.crash()
+                return
+            in_loop[0] = True
+            try:
+                next(gen)
+            except StopIteration:
+                pass
+            except _StopScript:
+                w.reactor.crash()
+            except BaseException as e:      # noqa: re-raised below, outside the main loop's catch-all
+                stored.append(e)
+                w.reactor.crash()
+            finally:
+                in_loop[0] = False
+        w.reactor.verif_hook = hook
+        if api == "startup":
+            m.fire_event()
+        guarded_call(w.reactor.run, installSignalHandlers=False)
+        w.reactor.verif_hook = None
+        if stored:
+            raise stored[0]
+        flush()
+    for _ in gen:                           # direct apis: everything; life cycle: what is left
+        pass
+    flush()
     if m.state != "done":
         raise AssertionError("model did not finish")
     # every registered trigger either ran exactly once or was removed before its turn
     n = len(w.log)
     guarded_call(w.fire_event)
+    flush()
     if len(w.log) != n:
         ctx.violation("trigger-ran-again-on-second-fire", case,
                       f"second fireEvent ran {w.log[n:]} after {w.log[:n]}")
@@ -400,6 +543,7 @@ def run_case(ctx, case):
 # ---------------------------------------------------------------------------
 # complete small scope
 
+APIS = ("event", "reactor", "startup", "shutdown")
 KINDS = [("before", "ret"), ("before", "raise"), ("before", "dfr"), ("before", "dok"),
          ("during", "ret"), ("during", "raise"), ("after", "ret"), ("after", "raise")]
 
@@ -436,7 +580,18 @@ def _small_cases(arg):
                     variants.append((ops, None))
         if k:
             for t in range(n):                  # removal from outside while waiting
-                variants.append((base, t))
+                variants.append((base, ["rm", t]))
+        if api != "event":
+            for a in range(n):                  # trigger a spins the reactor re-entrantly
+                ops = [list(o) for o in base]
+                ops[a][3] = ["iter"]
+                variants.append((ops, None))
+        if api == "startup":
+            for a in range(n):                  # trigger a calls reactor.callWhenRunning
+                ops = [list(o) for o in base]
+                ops[a][3] = ["cwr"]
+                variants.append((ops, None))
+            variants.append((base, ["cwr"]))    # callWhenRunning from outside, at every position
         if any(beh == "raise" for ph, beh in kinds):
             # the family of the raised exception, for the variant without removals
             for fam in RAISES[1:]:
@@ -448,7 +603,7 @@ def _small_cases(arg):
                     yield dict(api=api, ops=ops, post=order)
                 else:
                     for pos in range(len(order) + 1):
-                        yield dict(api=api, ops=ops, post=order[:pos] + [["rm", mid_rm]] + order[pos:])
+                        yield dict(api=api, ops=ops, post=order[:pos] + [list(mid_rm)] + order[pos:])
 
 
 def _small_shard(ctx, arg):
@@ -464,6 +619,8 @@ def _case_strategy(max_adds):
         st.none(), st.none(), st.none(),
         st.tuples(st.just("rm"), idx).map(list),
         st.tuples(st.just("fire"), idx, st.booleans()).map(list),
+        st.just(["iter"]),
+        st.just(["cwr"]),
     )
     add_before = st.tuples(st.just("add"), st.just("before"),
                            st.sampled_from(BEFORE_BEHS + ("dfr", "dfr", "dfr")), action).map(list)
@@ -476,10 +633,11 @@ def _case_strategy(max_adds):
         st.tuples(st.just("fire"), st.integers(0, 7), st.just(True)).map(list),
         st.tuples(st.just("fire"), st.integers(0, 7), st.just(True)).map(list),
         rm,
+        st.just(["cwr"]),
     )
     return st.builds(
         dict,
-        api=st.sampled_from(["event", "reactor"]),
+        api=st.sampled_from(["event", "reactor", "startup", "shutdown"]),
         ops=st.lists(op, min_size=1, max_size=max_adds + 6).filter(
             lambda ops: 1 <= sum(1 for o in ops if o[0] == "add") <= max_adds),
         post=st.lists(post_step, max_size=12),
@@ -493,13 +651,13 @@ def _random_shard(sub, i):
 def run(ctx):
     nmax = ctx.pick(3, 4)
     shard_args = []
-    for api in ("event", "reactor"):
+    for api in APIS:
         for n in range(1, nmax + 1):
             for first in range(len(KINDS)):
                 shard_args.append((api, n, first))
     ctx.extra["exhaustive_scope"] = dict(
         triggers=f"1..{nmax}", kinds=[f"{p}/{b}" for p, b in KINDS],
-        variants="no removal (raising triggers also with every exception family: SystemExit, KeyboardInterrupt, GeneratorExit, asyncio.CancelledError, BaseException) | one removal before firing | trigger a removes trigger b | before-trigger fires an earlier Deferred | one removal from outside at every position while waiting",
+        apis=list(APIS), variants="no removal (raising triggers also with every exception family: SystemExit, KeyboardInterrupt, GeneratorExit, asyncio.CancelledError, BaseException) | one removal before firing | trigger a removes trigger b | before-trigger fires an earlier Deferred | one removal from outside at every position while waiting | trigger a calls reactor.iterate() (reactor apis) | trigger a calls reactor.callWhenRunning / callWhenRunning from outside at every position (startup)",
         orders="every firing order of the outstanding Deferreds x (all succeed | exactly one fails)")
     if ctx.thorough:
         ctx.shards(_small_shard, shard_args)
